@@ -891,7 +891,7 @@ def main(run):
                       {"program": r_file([scs[5]]), "expected_stdout": scs[5]['pout'], "observed": obs(scs[5])})
     run.extra["gates"] = [g for g, on in (("reads with a variable index (open finding %s)" % K1, gate_reads),
                                           ("scenarios containing array writes (open finding %s)" % K2, gate_writes),
-                                          ("index variables wider than i32 or unsigned (open finding spec:wide-index-truncated): ArrLang scalars are i32", True)) if on]
+                                          ("index variables wider than i32 or unsigned are outside ArrLang (i32 scalars); one fixed wide-index probe runs instead", True)) if on]
     wide_probe(run, work)
     def gated(sc):
         if gate_reads and has_var_read(sc['body']): return True
